@@ -219,7 +219,7 @@ class DigestAuthMiddleware:
         # Set of URLs defining the protection space
         self._protection_space: list[str] = []
         # Origin the credentials are scoped to; set on the first request.
-        self._origin: URL | None = None
+        self._origin: tuple[str, str, int | None] | None = None
 
     async def _encode(self, method: str, url: URL, body: Payload | Literal[b""]) -> str:
         """
@@ -475,7 +475,10 @@ class DigestAuthMiddleware:
         # pass through untouched unless a challenge from the anchor origin
         # advertised them via RFC 7616 domain; mirrors aiohttp stripping
         # Authorization on cross-origin redirects.
-        origin = request.url.origin()
+        # Scheme, host and effective port: yarl compares the netloc text,
+        # where a spelled out default port (http://host:80) makes a difference.
+        url = request.url
+        origin = (url.scheme, (url.raw_host or "").lower(), url.port)
         if self._origin is None:
             self._origin = origin
         elif origin != self._origin and not self._in_protection_space(request.url):
